@@ -85,6 +85,8 @@ fn main() {
     // then disagrees with the UTC oracles.  (L2 runs set TZ per case.)
     // SAFETY: single-threaded at this point.
     unsafe { std::env::set_var("TZ", std::env::var("VERIF_TZ").unwrap_or_else(|_| "<+14>-14".into())) };
+    // hermetic working directory: relative paths and `--source git` without -C must not see /verif
+    let _ = std::env::set_current_dir("/");
     runner::install_panic_hook();
     // global watchdog: a hang is "inconclusive" (exit 2), never a violation
     let limit = std::env::var("VERIF_WATCHDOG_S").ok().and_then(|s| s.parse().ok()).unwrap_or(tier.pick(1500u64, 6 * 3600));
